@@ -1,1 +1,2 @@
 pub mod dewey;
+pub mod plist;
